@@ -1594,6 +1594,10 @@ class Run:
 
     def fault_point(self, what):
         self.fault_count += 1
+        if self.qstack:
+            # inside a comprehension: some element's evaluation may fail (handled when the comprehension closes)
+            self.qstack[-1].raises.append((z3.Bool(fresh_name('fault')), 'CallbackError'))
+            return
         if self.choose(z3.Bool(fresh_name('fault'))):
             raise PyRaise('CallbackError', what)
 
